@@ -300,6 +300,7 @@ def replay_case(exe, prop, path, kf, mode=None, timeout=300):
                 extra[m.group(1)] = m.group(2).strip()
     except OSError:
         pass
+    extra.update(prop.get("replay_env", {}))
     try:
         r = run(cmd, env=child_env(prop, extra), timeout=timeout, preexec_fn=big_stack)
     except subprocess.TimeoutExpired:
@@ -370,8 +371,8 @@ def main():
     try:
         exe0 = build_harness(pid, prop, dconfig)
         if args.replay:
-            st, out = replay_case(exe0 if not prop.get("replay_config") else build_harness(pid, prop, prop["replay_config"]),
-                                  prop, args.replay, kf_all, args.mode)
+            rcfg = prop.get("mode_config", {}).get(args.mode or case_mode(args.replay), prop.get("replay_config", dconfig))
+            st, out = replay_case(build_harness(pid, prop, rcfg), prop, args.replay, kf_all, args.mode)
             print(out)
             if st == "pass":
                 return 0
@@ -473,6 +474,7 @@ def main():
                 extra = {"VERIF_HASHSEED": str((seed * 7919 + w * 104729 + 17) % 2000000011)}
                 if step.get("pin"):
                     extra["VERIF_PIN_BASE"] = str(0)
+                extra.update(step.get("env", {}))
                 p = subprocess.Popen(cmd, stdout=subprocess.DEVNULL, stderr=errf, env=child_env(prop, extra), preexec_fn=big_stack)
                 procs.append((w, out, p, errf))
             for w, out, p, errf in procs:
